@@ -244,7 +244,7 @@ FORMULAS = {
     "C07": ["C07_NotEarly", "C07_NotEarlyStep", "C07_IndependentStarts", "C07_RefusedOnlyWhenDue"],
     "C15": ["C15_Exact", "C15_Monotone", "C15_Covers"],
     "C08": ["C08_OneLive", "C08_Order", "C08_Delay", "C08_Gates"],
-    "C09": ["C09_Keep", "C09_NotLost", "C09_NoForeignAdopt", "C09_Listed", "C09_ForeignEnds"],
+    "C09": ["C09_Keep", "C09_NotLost", "C09_NoForeignAdopt", "C09_AdmOnlyForeign", "C09_Listed", "C09_ForeignEnds"],
     "C10": ["C10_SuccOnly", "C10_FailOnly", "C10_RefMatchesTask", "C10_NoLiveAtFinish", "C10_Reaches", "C10_Progress"],
     "C11": ["C11_Coherent", "C11_Monotone"],
     "C12": ["C12_DeleteJustified", "C12_ForceGate", "C12_KillCompletes", "C12_PendingCompletes"],
